@@ -45,7 +45,12 @@ type op struct {
 	UUID int    `json:"uuid"` // caller-assigned uuid kind: 0 none, 1 fresh valid, 2 existing node of this repo, 3 node of other repo, 4 malformed, 5 empty string
 	Body int    `json:"body"` // 0 valid, 1 missing fields ({}), 2 wrong types, 3 empty body, 4 truncated JSON
 	Ps   []pref `json:"ps,omitempty"`
+	// Pool > 0 (branch, tag): the name comes from a pool of two release names shared by both kinds — a tag <name>
+	// becomes a node on branch "tag-<name>", and a caller may also name a branch "tag-<name>" directly
+	Pool int `json:"pool,omitempty"`
 }
+
+var relPool = []string{"rel-a", "rel-b"}
 
 type c07Case struct {
 	Ops []op `json:"ops"`
@@ -438,7 +443,7 @@ func waitStable() {
 // ------------------------------------------------------------ execution
 
 type world struct {
-	roots []string            // repos created by this case, in creation order (deleted ones removed)
+	roots []string                   // repos created by this case, in creation order (deleted ones removed)
 	named map[string]map[string]bool // root -> branch names created through branch requests
 	inst  map[string]int
 }
@@ -654,6 +659,9 @@ func checkC07(c c07Case) (rejected int, grown int, err error) {
 			case 6:
 				name = "odd name/with:colon~1"
 			}
+			if o.Pool > 0 {
+				name = "tag-" + relPool[(o.Pool-1)%len(relPool)]
+			}
 			valid := map[string]interface{}{"branch": name, "note": "b"}
 			if assign != "" || o.UUID == 5 {
 				valid["uuid"] = assign
@@ -675,6 +683,9 @@ func checkC07(c c07Case) (rejected int, grown int, err error) {
 				tag = fmt.Sprintf("v1.%d", i)
 			case 4:
 				tag = ""
+			}
+			if o.Pool > 0 {
+				tag = relPool[(o.Pool-1)%len(relPool)]
 			}
 			valid := map[string]interface{}{"tag": tag, "note": "t"}
 			r = drive.Post("node/"+addr+"/tag", mutateBody(valid, o.Body))
@@ -863,6 +874,9 @@ func genC07(t *rapid.T) c07Case {
 		o.Name = rapid.IntRange(0, 13).Draw(t, "name")
 		o.UUID = rapid.SampledFrom([]int{0, 0, 0, 0, 1, 1, 2, 3, 4, 5}).Draw(t, "uuid")
 		o.Body = rapid.SampledFrom([]int{0, 0, 0, 0, 0, 0, 1, 2, 3, 4}).Draw(t, "body")
+		if o.Kind == "branch" || o.Kind == "tag" {
+			o.Pool = rapid.SampledFrom([]int{0, 0, 0, 1, 1, 2}).Draw(t, "pool")
+		}
 		if o.Kind == "merge" || o.Kind == "resolve" {
 			k := rapid.IntRange(2, 4).Draw(t, "k")
 			for j := 0; j < k; j++ {
@@ -900,11 +914,17 @@ func classes(c c07Case) []string {
 			if o.Kind == "branch" && o.Name%7 == 3 {
 				cls["branch-name-reuse"] = true
 			}
+			if o.Kind == "branch" && o.Pool > 0 {
+				cls["branch-named-like-a-tag"] = true
+			}
 		case "reuse":
 			cls["branch-name-reuse"] = true
 		case "tag":
-			if o.Name%5 == 2 {
+			if o.Name%5 == 2 && o.Pool == 0 {
 				cls["tag-equal-to-existing-uuid"] = true
+			}
+			if o.Pool > 0 {
+				cls["tag-from-release-pool"] = true
 			}
 		case "delrepo":
 			cls["repo-delete"] = true
